@@ -5,6 +5,7 @@ CONSTANTS
   LateClose = FALSE
   LeakData = FALSE
   GoFirst = FALSE
+  LateErrReset = FALSE
 INVARIANT TypeOK
 INVARIANT Inv_Usable
 INVARIANT Inv_NoLeftover
